@@ -204,13 +204,16 @@ def mkCfg (lvl : Int) (pat : List Nat) : Mhd.ConnRead.Cfg :=
 /-- state class + the refusal: `ph=err code=<status>` (0 = closed without a reply; `ns?` must never
     appear: the run is in `.error .noSpace` but no refusal was recorded) -/
 def showTR (t : Mhd.ArenaBound.TR) : String :=
+  let c := t.x.cm
+  let rb := match c.rb with | none => "null" | some o => toString o
+  let pos := s!"rb={rb} rbs={c.rbSize} rbo={c.rbOff} pos={c.p.pos} end={c.p.end_}"
   match t.x.phase with
-  | .reqLine _ => "ph=line"
-  | .headers _ _ => "ph=hdrs"
-  | .headersDone _ _ => "ph=done"
-  | .body _ => "ph=body"
-  | .footers _ _ => "ph=foot"
-  | .reqDone _ _ _ => "ph=full"
+  | .reqLine _ => s!"ph=line {pos}"
+  | .headers _ _ => s!"ph=hdrs {pos}"
+  | .headersDone _ _ => s!"ph=done {pos}"
+  | .body _ => s!"ph=body {pos}"
+  | .footers _ _ => s!"ph=foot {pos}"
+  | .reqDone _ _ _ => s!"ph=full {pos}"
   | .error (.reply code) => s!"ph=err code={code} why=reply"
   | .error .closed => "ph=err code=0 why=closed"
   | .error .noSpace =>
